@@ -275,6 +275,10 @@ func (h *harness) runCase(c *Case) (fails []failure, rejected bool) {
 		fails = append(fails, h.rebuildPart(c, bt, s, allData, allIntro)...)
 	}
 
+	if c.has("history") {
+		fails = append(fails, h.historyPart(c, bt)...)
+	}
+
 	if c.has("clone") {
 		fails = append(fails, h.clonePart(c, bt, s)...)
 	}
@@ -746,6 +750,7 @@ var obligations = map[string][2]string{
 	"defaults": {"oracle: CoerceLiteral(ParseValue(printed defaultValue)) == configured default", "oracle"},
 	"rebuild":  {"oracle: same ParseAndValidate verdict on the original and on the schema rebuilt from introspection JSON", "oracle"},
 	"clone":    {"oracle: Clone introspects identically, shares no mutable container, mutating it leaves the original unchanged", "oracle"},
+	"history":  {"oracle: a definition modified after use (clone + hook; modify + build again) introspects as the modified definition", "oracle"},
 	"model":    {"correspondence: model introspect / new / rebuild / clone == implementation (canonical S-expressions)", "correspondence"},
 }
 
